@@ -147,6 +147,8 @@ def gen(rng, idx, tier):
     elif name == "CubicToQuadraticFilter":
         opts = {"conversionError": rng.choice([None, 0.002]),
                 "reverseDirection": rng.random() < 0.7}
+        if rng.random() < 0.4:
+            opts["rememberCurveType"] = True
     elif name in ("SkipExportGlyphsFilter", "SkipExportGlyphsIFilter"):
         names = [g["name"] for g in glyphs]
         used = [c["base"] for g in glyphs for c in g["components"]]
@@ -159,6 +161,10 @@ def gen(rng, idx, tier):
     elif name == "SortContoursFilter":
         pass
     case["options"] = opts
+    if (not interp and case["target"] == "copy" and rng.random() < 0.35
+            and name not in ("DottedCircleFilter", "ExplodeColorLayerGlyphsFilter")):
+        # the separate glyph set is a plain mapping of glyph copies (no lib of its own)
+        case["target"] = "copy_dict"
     return case
 
 
@@ -233,6 +239,9 @@ def apply_once(case, filt, fonts, target, bump):
         views = [{g.name: g for g in f.layers.defaultLayer} for f in fonts]
     else:
         sets = [_GlyphSet.from_layer(f, copy=True) for f in fonts]
+        if target == "copy_dict":
+            sets = [dict(gs) for gs in sets]
+            bump("separate_glyph_set_is_a_plain_dict")
         views = sets
     font_before = [M.snapshot(f) for f in fonts] if target != "inplace" else None
     before = [state(v) for v in views]
